@@ -63,7 +63,7 @@ TIMEOUT = {'quick': 600, 'thorough': 3000}
 FLOORS = {
     'contract_expr_rule': 20000, 'contract_ref_binder': 5000, 'contract_node_in_env': 20000, 'contract_table_wrapper': 1000,
     'contract_table_model': 500, 'contract_matrix_wrapper': 500, 'contract_matrix_model': 300, 'contract_literal_typecheck': 1000,
-    'contract_literal_roundtrip': 500, 'ir_node_classes': 60, 'contract_join_row_layout': 10, 'joins_with_left_key_not_leading': 2,
+    'contract_literal_roundtrip': 500, 'ir_node_classes': 60, 'contract_join_row_layout': 10, 'matrix_unkey_ops': 8, 'joins_with_left_key_not_leading': 2,
     # M6 (engine-rule transcription): evaluations in total, per relational node class (about half of what seeds 0..4 observe in the
     # quick tier), distinct classes judged, wrapper comparisons, and the layouts in which field ORDER can show at all
     'relational_rule_checked': 2700, 'contract_relational_wrapper': 2000, 'relational_rule_classes_checked': 25,
@@ -1308,6 +1308,9 @@ def run(ctx):
                     ks = rng.sample(cand, rng.randint(1, min(2, len(cand))))
                     if len(cand) > 1 and ks[0] == next(iter(m.row)) and rng.random() < 0.6:
                         ks = [rng.choice([c for c in cand if c != ks[0]])] + ks[:1]   # prefer a key that does NOT lead the row struct
+                    if rng.random() < 0.15:
+                        ks = []  # un-keying is a key change too (an empty key list is not "no new key")
+                        ctx.count('matrix_unkey_ops')
                     m2.row_key = ks
                     res = guarded(op, lambda: mt.key_rows_by(*ks))
             elif op == 'key_cols_by':
@@ -1316,6 +1319,9 @@ def run(ctx):
                     ks = rng.sample(cand, rng.randint(1, min(2, len(cand))))
                     if len(cand) > 1 and ks[0] == next(iter(m.col)) and rng.random() < 0.6:
                         ks = [rng.choice([c for c in cand if c != ks[0]])] + ks[:1]
+                    if rng.random() < 0.2:
+                        ks = []
+                        ctx.count('matrix_unkey_ops')
                     m2.col_key = ks
                     res = guarded(op, lambda: mt.key_cols_by(*ks))
             elif op in ('row_agg', 'col_agg'):
